@@ -97,6 +97,9 @@ QPos(g) == CHOOSE j \in 1..Len(run.qg) : run.qg[j] = g
 QVec(i, gs) == [p \in 1..Len(gs) |-> run.Q[i + 1][QPos(gs[p])]]
 MVec(leaf, gs) == [p \in 1..Len(gs) |-> run.means[leaf][gs[p]]]
 
+\* bootstrap factor at a parent: the per-level table (level 0 = the root) when one is given, else the
+\* global factor (cli/from_specified_markers.py builds the table from bootstrap_factor_lookup)
+FactorAt(par) == IF par[1] \in DOMAIN run.flk THEN run.flk[par[1]] ELSE <<run.fnum, run.fden>>
 \* out[j] = [a |-> winner, k |-> votes, ru |-> <<<<child, votes>>, ...>>] for rows[j]
 NodeErr(par, rows, genes, leaves, types, draws, out) ==
     LET cl == ChildLevelOf(R, par)
@@ -126,7 +129,7 @@ NodeErr(par, rows, genes, leaves, types, draws, out) ==
                                           \* only and all leaves below the node (C02)
         ELSE IF ~(\A i \in 1..Len(leaves) : types[i] = AncestorAt(R, LeafLevel(R), leaves[i], cl)) THEN 211
         ELSE IF ~(Len(draws) = run.B) THEN 212
-        ELSE IF ~(\A d \in 1..Len(draws) : DrawOK(draws[d], Len(genes), run.fnum, run.fden)) THEN 213
+        ELSE IF ~(\A d \in 1..Len(draws) : DrawOK(draws[d], Len(genes), FactorAt(par)[1], FactorAt(par)[2])) THEN 213
         ELSE LET cerrs == {IF ContractErr(run.B, run.K, ch, out[j].a, out[j].k, out[j].ru) # 0
                           THEN ContractErr(run.B, run.K, ch, out[j].a, out[j].k, out[j].ru)
                           ELSE IF ~run.votes THEN 0
